@@ -1,6 +1,8 @@
 """C08 — send backpressure is applied, bounded, and always released."""
 from __future__ import annotations
 
+import time
+
 from ..apps.script import pattern
 from ..wire import h1
 from ..wire.h2raw import FrameBuilder, client_preface
@@ -20,7 +22,7 @@ RULE = ("full cross product of the enumerated dimensions (sampled in quick); non
         "acceptance while the application still had data to send; distinct = distinct case hash")
 ASSUMPTIONS = ["HTTP/1 half-close by the client is not a connection close (release demanded on reset / resume only)",
                "other connections are not modelled in the connection tier (sibling streams are)"]
-MIN_DECISIVE = {"bounded": 20, "released": 20, "siblings": 5, "end-needs-no-credit": 8, "wsgi-bounded": 4}
+MIN_DECISIVE = {"bounded": 20, "released": 20, "siblings": 5, "end-needs-no-credit": 8, "wsgi-bounded": 4, "real-bounded": 6, "real-released": 6}
 BOUND_BASE = 256 * 1024
 
 
@@ -64,6 +66,14 @@ def gen(rng, tier):
             for be in ("asyncio", "trio"):
                 n += 1
                 yield _build_wsgi(rng, 950000 + n, proto, be)
+    # ---- the same property against the real transports: real serve(), loopback TCP, the kernel's socket buffers ----
+    for rep in range(1 if tier == "quick" else 4):
+        for be in ("asyncio", "trio"):
+            for carrier in ("h1", "h2", "ws"):
+                for release in ("read", "close"):
+                    n += 1
+                    yield {"family": "real-sockets.%s.%s" % (carrier, release), "tierb": True, "backend": be, "carrier": carrier, "release": release,
+                           "total": 96 * 1024 * 1024, "chunk": rng.choice([64 * 1024, 256 * 1024]), "rep": rep, "tag": 970000 + n}
     rng.shuffle(cases)
     if tier == "quick":
         cases = cases[:360]
@@ -252,7 +262,146 @@ def _build(rng, n, kind, size, chunk, point, release, sib):
             "sched": {"seed": rng.randrange(1 << 30)}, "horizon": 100.0}
 
 
+REAL_BOUND = 48 * 1024 * 1024
+
+
+def _real_sockets(case, tally):
+    """Real serve() on loopback.  The application wants to send `total` (96 MiB) to a client that does not read.  Monitors: the number of
+    application sends that have *returned* (the hook is the ScriptedApps trace) and what the client has received.  Decided without timing:
+    "bounded" is violated if the application's sends for more than REAL_BOUND (half of the total, an order of magnitude above what the
+    kernel's loopback buffers hold) have returned while the client has read nothing at all; "released" is violated if, after the client has
+    read everything / has closed, the application is still inside a send when the trace has shown no progress for 5 s.  A slow machine can
+    only make the run inconclusive."""
+    import socket as _socket
+
+    from ..wire import ws as _ws
+    from ..wire.h2raw import FrameBuilder, FrameReader, client_preface
+    from ..world.realnet import ServeHarness
+
+    findings = []
+    be, carrier, release, total, chunk, tag = case["backend"], case["carrier"], case["release"], case["total"], case["chunk"], case["tag"]
+    if carrier == "ws":
+        msg = chunk
+        big = [["recv"], ["send", {"type": "websocket.accept"}]] + [["send", {"type": "websocket.send", "bytes": b"w" * msg}]] * (total // msg) + \
+              [["send", {"type": "websocket.close", "code": 1000}]]
+        apps = {"default": [["recv_until_end"], ["respond", 200, [], b"d"]], "websocket": big}
+    else:
+        body = {"type": "http.response.body", "body": b"b" * chunk, "more_body": True}
+        apps = {"default": [["recv_until_end"], ["send", {"type": "http.response.start", "status": 200, "headers": []}]] +
+                           [["send", body]] * (total // chunk) + [["send", {"type": "http.response.body", "body": b"", "more_body": False}]]}
+    h = ServeHarness(be, {"keep_alive_timeout": 60.0, "graceful_timeout": 0.5, "websocket_max_message_size": 1 << 30}, apps)
+    sock = None
+    try:
+        h.start()
+        h.wait_ready()
+        tr = h.trace
+        sock = h.connect()
+        if sock is None:
+            tally.inconclusive["no-connection-established"] += 1
+            return findings, [None]
+        sock.setsockopt(_socket.SOL_SOCKET, _socket.SO_RCVBUF, 65536)
+        if carrier == "h1":
+            sock.sendall(b"GET /t%d HTTP/1.1\r\nHost: h\r\n\r\n" % tag)
+        elif carrier == "h2":
+            fb = FrameBuilder()
+            # flow-control windows far above the total: only the transport can hold the server back
+            sock.sendall(client_preface(fb, {"initial_window": (1 << 31) - 1}) + fb.window_update(0, (1 << 31) - 1 - 65535) +
+                         fb.headers(1, [(b":method", b"GET"), (b":scheme", b"http"), (b":path", b"/t%d" % tag), (b":authority", b"h")], end_stream=True))
+        else:
+            sock.sendall(_ws.handshake(path=b"/t%d" % tag))
+
+        def returned():
+            return sum(1 for e in tr.events if e[2] == "app" and e[3] == "send.")
+
+        # plateau: no send has returned for 0.6 s (the application is held) - or everything has been sent
+        last, since = -1, time.monotonic()
+        end = time.monotonic() + 60.0
+        while time.monotonic() < end:
+            r = returned()
+            if r != last:
+                last, since = r, time.monotonic()
+            elif time.monotonic() - since > 0.6 and r > 0:
+                break
+            time.sleep(0.02)
+        held_bytes = max(0, (last - 1)) * chunk  # the first returned send is the response start / the accept
+        exited = any(e[2] == "app" and e[3] == "exit" for e in tr.events)
+        tally.events["real.sends-returned-before-any-read"] += last
+        tally.clause("real-bounded")
+        if exited or held_bytes > REAL_BOUND:
+            findings.append({"clause": "bounded", "sig": "C08.real/unbounded/%s/%s" % (carrier, be), "backend": be,
+                             "detail": "the client has not read a byte, yet application sends for %d MiB of %d MiB have returned (application exited: %r)" % (
+                                 held_bytes >> 20, total >> 20, exited)})
+            return findings, [None]
+        # ---- release ----
+        got = 0
+        if release == "read":
+            sock.settimeout(20.0)
+            try:
+                while True:
+                    x = sock.recv(1 << 20)
+                    if not x:
+                        break
+                    got += len(x)
+                    if carrier in ("h2", "ws") and got >= total and any(e[2] == "app" and e[3] == "exit" for e in tr.events):
+                        break  # these connections stay open after the response
+            except _socket.timeout:
+                pass
+            except OSError:
+                pass
+        else:
+            sock.setsockopt(_socket.SOL_SOCKET, _socket.SO_LINGER, __import__("struct").pack("ii", 1, 0))
+            sock.close()
+            sock = None
+        # the application must get out of its send: wait while the trace still moves
+        n_ev, since = len(tr.events), time.monotonic()
+        end = time.monotonic() + 60.0
+        done = False
+        while time.monotonic() < end:
+            if any(e[2] == "app" and e[3] == "exit" for e in tr.events):
+                done = True
+                break
+            if len(tr.events) != n_ev:
+                n_ev, since = len(tr.events), time.monotonic()
+            elif time.monotonic() - since > 5.0:
+                break
+            time.sleep(0.02)
+        tally.clause("real-released")
+        if not done:
+            if time.monotonic() - since > 5.0:
+                findings.append({"clause": "released", "sig": "C08.real/not-released/%s/%s/%s" % (carrier, release, be), "backend": be,
+                                 "detail": "after the client had %s (received %d of %d bytes) the application was still held in a send and nothing moved for 5 s "
+                                           "(sends returned: %d)" % ("read everything it was sent" if release == "read" else "reset the connection", got, total, returned())})
+            else:
+                tally.inconclusive["real-sockets-too-slow"] += 1
+        elif release == "read" and got < total:
+            findings.append({"clause": "released", "sig": "C08.real/short-delivery/%s/%s" % (carrier, be), "backend": be,
+                             "detail": "the application completed all its sends but the client received %d of at least %d bytes" % (got, total)})
+    finally:
+        if sock is not None:
+            try:
+                sock.close()
+            except OSError:
+                pass
+        h.trigger_shutdown()
+        h.wait_done(5.0)
+        h.close()
+    return findings, [None]
+
+
+def run_one(case, tally):
+    if case.get("tierb"):
+        return _real_sockets(case, tally)
+    import sys
+
+    from ..runner import default_run_one
+
+    return default_run_one(sys.modules[__name__], case, tally)
+
+
 def nontrivial(case, obs):
+    if obs is None:
+        return True
+
     return "stall" in obs.marks
 
 
